@@ -252,7 +252,9 @@ def accepts(p, v):
         if (len(p[1]) + len(p[3]) > n) if p[2] else (len(p[1]) + len(p[3]) != n): return False
         return all(accepts(q, w) for q, w in zip(p[1], vs[:len(p[1])])) and all(accepts(q, w) for q, w in zip(p[3], vs[n - len(p[3]):]))
     if k == "cmp": return v[0] == "I" and ((v[1] != p[2]) if p[1] else (v[1] == p[2]))
-    if k == "cmpa": return v[0] == "A" and ((v[1] != p[2]) if p[1] else (v[1] == p[2]))
+    if k == "cmpa":
+        if v[0] != "A": return False
+        return (v[1] // 4 != p[2] // 4) if p[1] else (v[1] // 4 == p[2] // 4 and v[1] % 4 <= p[2] % 4)
     raise ValueError(k)
 
 
@@ -666,8 +668,11 @@ def render_gen_rs(cases):
     em.emit("use unimock::*;")
     em.emit("#[derive(Clone, Copy, PartialEq)]")
     em.emit("pub enum Nd { A, B }")
-    em.emit("#[derive(Clone, Copy, PartialEq)]")
+    em.emit("#[derive(Clone, Copy)]")
     em.emit("pub struct Amb(pub i32, pub i32);")
+    em.emit("// deliberately NOT symmetric: a == b iff the shown fields agree and a.1 <= b.1 (the matcher must evaluate `argument == operand`)")
+    em.emit("impl PartialEq for Amb { fn eq(&self, other: &Amb) -> bool { self.0 == other.0 && self.1 <= other.1 } "
+            "#[allow(clippy::partialeq_ne_impl)] fn ne(&self, other: &Amb) -> bool { self.0 != other.0 } }")
     em.emit("impl std::fmt::Debug for Amb { fn fmt(&self, f: &mut std::fmt::Formatter<'_>) -> std::fmt::Result { write!(f, \"Amb({})\", self.0) } }")
     em.emit("pub struct Lt<'a>(pub i32, pub std::marker::PhantomData<&'a mut ()>);")
     em.emit("pub struct NC(pub i32);")
